@@ -253,7 +253,8 @@ def c01c(ck, prog):
         raise AnchorLost("Node::search / search_target not found")
     rr = ReachRule(ck, prog, "C01-c REACH search", roots, audit=AUDIT, stop=[r"^ohkami::response::"])
     sinks = rr.run()
-    ck.floor("C01-c REACH search", "sinks examined", len(sinks), 15)
+    # (no floor on the number of sinks: making the search safer removes sinks; the anchor is the pair of roots above)
+    ck.floor("C01-c REACH search", "functions reached from the search", len(rr.R.reached), 3)
 
 
 def final_builder(prog):
@@ -355,11 +356,13 @@ def c01f(ck, prog):
     if not entry:
         entry = [tb for tb, lab in f.succ(s0) if lab == "otherwise"]
     entry = entry[0]
-    somes = [bb for bb, kind, _ in paths.ret_sites(f) if kind == "Some" and f.edge_dominates(s0, entry, bb)]
-    if not somes:
-        raise AnchorLost("the Static arm of Pattern::take_through has no `Some(remaining)` answer")
+    arm_sites = [(bb, kind, pl) for bb, kind, pl in paths.ret_sites(f) if f.edge_dominates(s0, entry, bb)]
+    somes = [bb for bb, kind, _ in arm_sites if kind == "Some"]
+    filtered = [(bb, pl) for bb, kind, pl in arm_sites if kind == "call" and pl.name == "filter"]
+    if not somes and not filtered:
+        raise AnchorLost("the Static arm of Pattern::take_through answers neither `Some(remaining)` nor `strip_prefix(..).filter(..)`")
 
-    def boundary(facts):
+    def boundary_in(f, facts):
         for fa in facts:
             if fa.kind == "cmp":
                 for a, b, op in ((fa.lhs, fa.rhs, fa.op), (fa.rhs, fa.lhs, guards.FLIP[fa.op])):
@@ -381,6 +384,29 @@ def c01f(ck, prog):
                 return True
         return False
 
+    boundary = lambda facts: boundary_in(f, facts)
+
+    # equivalent safe idiom: `bytes.strip_prefix(pattern).filter(|rest| <boundary test on rest>)`
+    for i, (bb, call) in enumerate(filtered):
+        recv = f.origin(call.args[0])
+        okp = bool(recv) and recv[-1][0] == "call" and recv[-1][1].name == "strip_prefix"
+        cdef = None
+        for a in call.args[1:]:
+            st = f.origin(a)
+            if st and st[-1][0] == "agg" and st[-1][1][1].get("k") == "closure":
+                cdef = prog.fns.get(st[-1][1][1]["def"])
+        okc = cdef is not None
+        if okc:
+            for cb, ckind, cpl in paths.ret_sites(cdef):
+                if ckind == "const" and str(cpl.get("v")) == "0":
+                    continue
+                # every path to a `true` answer takes an edge that establishes the boundary (or-patterns join their edges,
+                # so dominating facts alone would miss it)
+                if pathsens.path_avoiding_edges(cdef, prog, 0, cb, lambda facts: boundary_in(cdef, facts)) is not None:
+                    okc = False
+        ck.ob(R, "static-match:filtered-by-boundary#%d" % i, okp and okc, f.loc(call.sp),
+              "" if okp and okc else "the Static arm answers `%s`: the remainder after the pattern is not filtered by a predicate that holds only when nothing is left or the next byte is `/`" % decision.describe_deep(f, ["c", [0, []]], 2)[:80],
+              how="strip_prefix(pattern).filter(|rest| rest is empty or starts with `/`)")
     for i, bb in enumerate(sorted(somes)):
         p = pathsens.path_avoiding_edges(f, prog, entry, bb, boundary)
         ok = p is None
@@ -434,7 +460,7 @@ def c01g(ck, prog):
     ck.floor(R, "append_child call sites", n, 3)
     # the look-up treats every param child as matching a param pattern (whatever the parameter is called)
     mc = prog.one(r"^ohkami::router::base::Node::machable_child_mut$")
-    cmpc = [c for c in mc.calls() if c.callee in prog.fns and "Pattern" in (c.callee or "")]
+    cmpc = [c for g in [mc] + prog.descendants(mc.key) for c in g.calls() if c.callee in prog.fns and "Pattern" in (c.callee or "")]
     if len(cmpc) != 1:
         raise AnchorLost("machable_child_mut does not compare patterns through one function of Pattern (%r): whether a param pattern matches any existing param child cannot be read" % [c.callee for c in mc.calls()][-3:])
     m = prog.fns[cmpc[0].callee]
